@@ -514,6 +514,7 @@ class JobResult:
         self.wall_s = 0.0
         self.replays = 0
         self.xchecks = 0
+        self.knife_edge_paths = 0
 
 
 def run_job(hdef, params, known=(), max_paths=2_000_000, deadline_s=3600,
@@ -574,9 +575,18 @@ def run_job(hdef, params, known=(), max_paths=2_000_000, deadline_s=3600,
                 if tracer:
                     sys.settrace(None)
             path_model = None
+            path_zmodel = None
             if status != 'abort':
                 try:
-                    path_model = ex.model_dict()
+                    path_zmodel = ex.robust_model()
+                    if path_zmodel is None:
+                        # the path exists only on a knife edge of a real comparison: its witness cannot be
+                        # re-executed faithfully with doubles; counted, not cross-checked
+                        res.knife_edge_paths += 1
+                        path_model = None
+                        ex.get_model()
+                    else:
+                        path_model = ex.model_dict(path_zmodel)
                 except PathAbort:
                     status = 'abort'
                 except Unmodelled as u:
@@ -591,7 +601,7 @@ def run_job(hdef, params, known=(), max_paths=2_000_000, deadline_s=3600,
             # ---- concrete cross-check of this path (engine + stub validation)
             if status == 'ok' and path_model is not None and not cx.violations \
                     and (ex.stats['paths'] % xcheck_every == 0 or ex.stats['paths'] <= 3):
-                m = ex.get_model()
+                m = path_zmodel
 
                 def ev(e, m=m):
                     return core.z3_to_py(m.eval(e, model_completion=True))
